@@ -1,15 +1,20 @@
 package main
 
 // Fingerprints.lean: "model-currency" facts.  For every function / method in the curated list
-// (fingerprints_list.go) the generator emits
+// (fingerprints_list.go) — and, unless the entry says `noClosure: true`, for everything it REACHES
+// inside its own package — the generator emits
 //
-//	("<pkgdir>.<Recv>.<Name>", "<hex16>")
+//	("<pkgdir>.<Recv>.<Name>", "<hex16>")        a function or method
+//	("<pkgdir>.const:<Name>", "<hex16>")         a package-level constant
+//	("<pkgdir>.var:<Name>", "<hex16>")           a package-level variable
 //
-// where <hex16> is the first 16 hex digits of SHA-256 over a NORMALISED rendering of the whole
-// function declaration (signature + body):
+// where <hex16> is the first 16 hex digits of SHA-256 over a NORMALISED rendering of the declaration
+// (function: signature + body; const / var: name, declared type, initialiser expression — for a
+// constant that repeats the previous expression of its group the inherited expression and, when it
+// mentions iota, its index in the group; a table literal is hashed like any other expression):
 //
 //   - comments are dropped (the files are parsed without comments; Doc is cleared),
-//   - every identifier that go/parser resolves to an object DECLARED INSIDE the function
+//   - every identifier that go/parser resolves to an object DECLARED INSIDE the declaration
 //     (receiver name, parameters, named results, := / var / const / type declarations, range and
 //     type-switch bindings, closure parameters, labels) is renamed v1, v2, … in order of the
 //     position of its declaration; package-level identifiers, struct fields, methods, imported
@@ -24,10 +29,25 @@ package main
 // unchanged, while any change of statements, operators, literals, called functions, types in the
 // signature or order changes it.  It detects CHANGE, not meaning.
 //
+// Closure (what "reaches" means).  A function's text names its callees and the package-level
+// constants and variables it uses only BY NAME, so an edit of `windowSize` or of an unlisted helper
+// would leave the fingerprint of every listed function untouched.  Therefore the generator builds,
+// per package, a symbol table (functions, methods by name, constants, variables; verif_*.go and
+// _test.go files excluded) and the direct references of every declaration (func (*fpPkg) refs): plain
+// identifiers that are not locals, and `x.m(…)` calls resolved to the package's methods named m (to
+// T.m alone when the declaration of x shows its type).  The listed functions are closed under these
+// references, breadth first, without depth limit (fpMaxDepth = 0; the closure of the current list is
+// about 1 270 keys).  Not followed: other packages (a function of package B called from package A
+// is pinned only if B's function is listed or reached from a listed function of B), calls through
+// interfaces and function-typed variables (the variable is pinned, and what its initialiser
+// mentions, but not what init() assigns to it later), and type declarations.
+// `deps` in the generated file holds the direct edges; tools/update_fingerprints.py uses them to
+// write the `…_deps` lists of Webp/Impl/Transcribed.lean.
+//
 // A listed function that is not found gets the hash "missing".  When several files of the package
-// declare the same pkg.Recv.Name (build-tagged twins such as *_amd64.go / *_generic.go) the
-// normalised renderings are concatenated in file-name order (each prefixed by its file name), so a
-// change in any twin changes the fingerprint.
+// declare the same name (build-tagged twins such as *_amd64.go / *_generic.go) the normalised
+// renderings are concatenated in file-name order (each prefixed by its file name), so a change in
+// any twin changes the fingerprint.
 //
 // In addition every assembly file under asmDirs is hashed ("asm:<path>": lines with comments
 // removed, blanks collapsed, empty lines dropped) together with the list of assembly file names
@@ -59,10 +79,14 @@ func init() {
 
 // fpSpec names one function or method of /repo.
 //
-//	pkg   directory of the package relative to the repo root ("." for the root package webp)
-//	recv  receiver type name for methods ("" for plain functions); pointer-ness is ignored
-//	fn    function name
-type fpSpec struct{ pkg, recv, fn string }
+//	pkg        directory of the package relative to the repo root ("." for the root package webp)
+//	recv       receiver type name for methods ("" for plain functions); pointer-ness is ignored
+//	fn         function name
+//	noClosure  true: fingerprint this function only, not what it reaches (default: closure on)
+type fpSpec struct {
+	pkg, recv, fn string
+	noClosure     bool
+}
 
 func (s fpSpec) key() string {
 	p := s.pkg
@@ -77,38 +101,6 @@ func (s fpSpec) key() string {
 
 // directories whose assembly files are fingerprinted
 var asmDirs = []string{"internal/dsp", "internal/lossy", "internal/lossless"}
-
-type fpFile struct {
-	name string
-	file *ast.File
-}
-
-type fpPkg struct {
-	fset  *token.FileSet
-	files []fpFile
-}
-
-func fpLoadPkg(repo, dir string) (*fpPkg, error) {
-	ents, err := os.ReadDir(filepath.Join(repo, dir))
-	if err != nil {
-		return nil, err
-	}
-	p := &fpPkg{fset: token.NewFileSet()}
-	for _, e := range ents {
-		n := e.Name()
-		if e.IsDir() || !strings.HasSuffix(n, ".go") || strings.HasSuffix(n, "_test.go") || strings.HasPrefix(n, "verif_") {
-			continue
-		}
-		// comments are not parsed; identifiers are resolved (ast.Object) within the file
-		f, err := parser.ParseFile(p.fset, filepath.Join(repo, dir, n), nil, 0)
-		if err != nil {
-			return nil, err
-		}
-		p.files = append(p.files, fpFile{n, f})
-	}
-	sort.Slice(p.files, func(i, j int) bool { return p.files[i].name < p.files[j].name })
-	return p, nil
-}
 
 func fpRecvName(fd *ast.FuncDecl) string {
 	if fd.Recv == nil || len(fd.Recv.List) != 1 {
@@ -144,6 +136,13 @@ var fpLooksRenamed = regexp.MustCompile(`^v[0-9]+$`)
 // file.  It mutates the identifiers of fd (each declaration is normalised at most once).
 func fpNormalise(fset *token.FileSet, fd *ast.FuncDecl) (string, error) {
 	fd.Doc = nil
+	return fpNormaliseNode(fset, fd, fd.Name)
+}
+
+// fpNormaliseNode is fpNormalise for any node (a function declaration, or the type / initialiser
+// expression of a package-level const or var): objects declared inside the node are renamed, `keep`
+// (the function's own name) is left alone.
+func fpNormaliseNode(fset *token.FileSet, fd ast.Node, keep *ast.Ident) (string, error) {
 	lo, hi := fd.Pos(), fd.End()
 
 	// struct / interface fields are never renamed, even when the type is declared locally
@@ -201,7 +200,7 @@ func fpNormalise(fset *token.FileSet, fd *ast.FuncDecl) (string, error) {
 			return true
 		}
 		idents = append(idents, id)
-		if id == fd.Name || fieldIdent[id] || keyIdent[id] || id.Obj == nil {
+		if id == keep || fieldIdent[id] || keyIdent[id] || id.Obj == nil {
 			return true
 		}
 		p := id.Obj.Pos()
@@ -232,7 +231,7 @@ func fpNormalise(fset *token.FileSet, fd *ast.FuncDecl) (string, error) {
 		names[o.obj] = fmt.Sprintf("v%d", k)
 	}
 	for _, id := range idents {
-		if id == fd.Name {
+		if id == keep {
 			continue
 		}
 		if !fieldIdent[id] && !keyIdent[id] && id.Obj != nil {
@@ -314,14 +313,405 @@ func fpAsm(src []byte) string {
 
 type fpEntry struct{ key, hash string }
 
-func fingerprintEntries(repo string) ([]fpEntry, error) {
+// ---------------------------------------------------------------------------------------------
+// packages: symbol table, direct references, closure
+
+type fpFile struct {
+	name    string
+	file    *ast.File
+	imports map[string]bool // local names of the imported packages
+}
+
+type fpFunc struct {
+	file *fpFile
+	decl *ast.FuncDecl
+}
+
+// one name of a package-level const / var specification
+type fpValue struct {
+	file     *fpFile
+	kind     string // "const" | "var"
+	name     string
+	typ      ast.Expr // declared (or, for a const without values, inherited) type; may be nil
+	val      ast.Expr // initialiser of this name (for a const without values: the inherited one); nil if none
+	tuple    bool     // var a, b = f(): val is the shared call
+	index    int      // position of the name in a tuple assignment
+	iota     int      // index of the specification inside its const group
+	usesIota bool
+}
+
+type fpDecl struct {
+	key  string
+	hash string
+	refs []string // keys of the same-package declarations it references directly (sorted)
+}
+
+type fpPkg struct {
+	prefix  string // key prefix: "webp" for the root package, else the directory
+	fset    *token.FileSet
+	files   []*fpFile
+	funcs   map[string][]fpFunc   // "Name" / "Recv.Name" → declarations (build-tagged twins: several)
+	methods map[string][]string   // method name → "Recv.Name" (sorted, unique)
+	values  map[string][]*fpValue // const / var name → declarations
+	decls   map[string]*fpDecl    // memo: local id ("f:…", "c:…", "v:…") → fingerprint + references
+}
+
+func fpLoadPkg(repo, dir string) (*fpPkg, error) {
+	ents, err := os.ReadDir(filepath.Join(repo, dir))
+	if err != nil {
+		return nil, err
+	}
+	p := &fpPkg{prefix: dir, fset: token.NewFileSet(), funcs: map[string][]fpFunc{}, methods: map[string][]string{},
+		values: map[string][]*fpValue{}, decls: map[string]*fpDecl{}}
+	if dir == "." || dir == "" {
+		p.prefix = "webp"
+	}
+	for _, e := range ents {
+		n := e.Name()
+		if e.IsDir() || !strings.HasSuffix(n, ".go") || strings.HasSuffix(n, "_test.go") || strings.HasPrefix(n, "verif_") {
+			continue
+		}
+		// comments are not parsed; identifiers are resolved (ast.Object) within the file
+		f, err := parser.ParseFile(p.fset, filepath.Join(repo, dir, n), nil, 0)
+		if err != nil {
+			return nil, err
+		}
+		ff := &fpFile{name: n, file: f, imports: map[string]bool{}}
+		for _, im := range f.Imports {
+			path := strings.Trim(im.Path.Value, "\"`")
+			name := path[strings.LastIndex(path, "/")+1:]
+			if im.Name != nil {
+				name = im.Name.Name
+			}
+			ff.imports[name] = true
+		}
+		p.files = append(p.files, ff)
+	}
+	sort.Slice(p.files, func(i, j int) bool { return p.files[i].name < p.files[j].name })
+	for _, ff := range p.files {
+		for _, d := range ff.file.Decls {
+			switch d := d.(type) {
+			case *ast.FuncDecl:
+				id := d.Name.Name
+				if r := fpRecvName(d); r != "" {
+					id = r + "." + id
+					found := false
+					for _, m := range p.methods[d.Name.Name] {
+						found = found || m == id
+					}
+					if !found {
+						p.methods[d.Name.Name] = append(p.methods[d.Name.Name], id)
+					}
+				}
+				p.funcs[id] = append(p.funcs[id], fpFunc{ff, d})
+			case *ast.GenDecl:
+				if d.Tok != token.CONST && d.Tok != token.VAR {
+					continue
+				}
+				kind := "var"
+				if d.Tok == token.CONST {
+					kind = "const"
+				}
+				var lastTyp ast.Expr
+				var lastVals []ast.Expr
+				for i, sp := range d.Specs {
+					vs := sp.(*ast.ValueSpec)
+					typ, vals := vs.Type, vs.Values
+					if kind == "const" {
+						if len(vals) == 0 { // implicit repetition of the previous expression list
+							typ, vals = lastTyp, lastVals
+						} else {
+							lastTyp, lastVals = typ, vals
+						}
+					}
+					for k, nm := range vs.Names {
+						if nm.Name == "_" {
+							continue
+						}
+						v := &fpValue{file: ff, kind: kind, name: nm.Name, typ: typ, iota: i}
+						switch {
+						case len(vals) == len(vs.Names):
+							v.val = vals[k]
+						case len(vals) == 1:
+							v.val, v.tuple, v.index = vals[0], true, k
+						}
+						if v.val != nil && kind == "const" {
+							ast.Inspect(v.val, func(n ast.Node) bool {
+								if id, ok := n.(*ast.Ident); ok && id.Name == "iota" && id.Obj == nil {
+									v.usesIota = true
+								}
+								return true
+							})
+						}
+						p.values[nm.Name] = append(p.values[nm.Name], v)
+					}
+				}
+			}
+		}
+	}
+	for _, m := range p.methods {
+		sort.Strings(m)
+	}
+	return p, nil
+}
+
+func (p *fpPkg) key(id string) string {
+	switch id[0] {
+	case 'c':
+		return p.prefix + ".const:" + id[2:]
+	case 'v':
+		return p.prefix + ".var:" + id[2:]
+	}
+	return p.prefix + "." + id[2:]
+}
+
+func fpBaseTypeName(t ast.Expr) string {
+	for {
+		switch x := t.(type) {
+		case *ast.StarExpr:
+			t = x.X
+			continue
+		case *ast.ParenExpr:
+			t = x.X
+			continue
+		case *ast.Ident:
+			return x.Name
+		case *ast.SelectorExpr: // a type of another package, e.g. sync.WaitGroup: "sync.WaitGroup"
+			if id, ok := x.X.(*ast.Ident); ok {
+				return id.Name + "." + x.Sel.Name
+			}
+		}
+		return ""
+	}
+}
+
+// the named type of an initialiser of the forms T{…}, &T{…}, new(T)
+func fpValueTypeName(e ast.Expr) string {
+	switch x := e.(type) {
+	case *ast.UnaryExpr:
+		if x.Op == token.AND {
+			return fpValueTypeName(x.X)
+		}
+	case *ast.CompositeLit:
+		return fpBaseTypeName(x.Type)
+	case *ast.CallExpr:
+		if id, ok := x.Fun.(*ast.Ident); ok && id.Name == "new" && len(x.Args) == 1 {
+			return fpBaseTypeName(x.Args[0])
+		}
+	}
+	return ""
+}
+
+// recvTypeName: the declared type of the variable x in `x.m(…)`, when it can be read off the
+// declaration of x ("" = unknown).
+func (p *fpPkg) recvTypeName(x ast.Expr) string {
+	id, ok := x.(*ast.Ident)
+	if !ok {
+		return ""
+	}
+	if id.Obj == nil {
+		for _, v := range p.values[id.Name] {
+			if v.typ != nil {
+				return fpBaseTypeName(v.typ)
+			}
+			if v.val != nil && !v.tuple {
+				return fpValueTypeName(v.val)
+			}
+		}
+		return ""
+	}
+	switch d := id.Obj.Decl.(type) {
+	case *ast.Field:
+		return fpBaseTypeName(d.Type)
+	case *ast.ValueSpec:
+		if d.Type != nil {
+			return fpBaseTypeName(d.Type)
+		}
+		for i, nm := range d.Names {
+			if nm.Obj == id.Obj && len(d.Values) == len(d.Names) {
+				return fpValueTypeName(d.Values[i])
+			}
+		}
+	case *ast.AssignStmt:
+		for i, l := range d.Lhs {
+			if li, ok := l.(*ast.Ident); ok && li.Obj == id.Obj && len(d.Rhs) == len(d.Lhs) {
+				return fpValueTypeName(d.Rhs[i])
+			}
+		}
+	}
+	return ""
+}
+
+// refs collects the same-package declarations that node (a function declaration or an initialiser)
+// references directly: functions and methods it calls or mentions, package-level constants and
+// variables it reads or writes.  Identifiers declared inside the node are locals and are skipped.
+//   - a plain identifier is looked up in the package's functions, constants and variables;
+//   - `x.m(…)`: if x names an imported package the call is external; otherwise the methods named m of
+//     the package are candidates — only T.m when x's declaration shows its type T (receiver, parameter,
+//     var with a type, x := T{…} / &T{…} / new(T)) and T.m exists, none when T belongs to another
+//     package (wg.Add), else all of them (an over-approximation: never fewer than the real callees,
+//     except for calls through interfaces and function values, which the call graph does not follow).
+//
+// Must run BEFORE the node is normalised (normalisation renames the locals in place).
+func (p *fpPkg) refs(ff *fpFile, node ast.Node, into map[string]bool) {
+	lo, hi := node.Pos(), node.End()
+	skip := map[*ast.Ident]bool{}
+	ast.Inspect(node, func(n ast.Node) bool {
+		switch x := n.(type) {
+		case *ast.SelectorExpr:
+			skip[x.Sel] = true
+		case *ast.CompositeLit:
+			switch x.Type.(type) {
+			case *ast.MapType, *ast.ArrayType:
+				return true
+			}
+			for _, e := range x.Elts {
+				if kv, ok := e.(*ast.KeyValueExpr); ok {
+					if id, ok := kv.Key.(*ast.Ident); ok {
+						skip[id] = true // field name
+					}
+				}
+			}
+		case *ast.StructType:
+			for _, f := range x.Fields.List {
+				for _, id := range f.Names {
+					skip[id] = true
+				}
+			}
+		case *ast.CallExpr:
+			sel, ok := x.Fun.(*ast.SelectorExpr)
+			if !ok {
+				return true
+			}
+			if id, ok := sel.X.(*ast.Ident); ok && id.Obj == nil && ff.imports[id.Name] && len(p.values[id.Name]) == 0 {
+				return true // pkg.Func(…)
+			}
+			cands := p.methods[sel.Sel.Name]
+			if len(cands) > 0 {
+				if t := p.recvTypeName(sel.X); t != "" {
+					if _, ok := p.funcs[t+"."+sel.Sel.Name]; ok {
+						cands = []string{t + "." + sel.Sel.Name}
+					} else if strings.Contains(t, ".") {
+						cands = nil // a value of another package's type (wg.Add, mu.Lock, …)
+					}
+				}
+			}
+			for _, c := range cands {
+				into["f:"+c] = true
+			}
+		}
+		return true
+	})
+	ast.Inspect(node, func(n ast.Node) bool {
+		id, ok := n.(*ast.Ident)
+		if !ok || skip[id] || id.Name == "_" {
+			return true
+		}
+		if id.Obj != nil {
+			if q := id.Obj.Pos(); q >= lo && q < hi {
+				return true // local
+			}
+			if id.Obj.Kind == ast.Typ {
+				return true
+			}
+		}
+		if _, ok := p.funcs[id.Name]; ok {
+			into["f:"+id.Name] = true
+		}
+		for _, v := range p.values[id.Name] {
+			into[string(v.kind[0])+":"+id.Name] = true
+		}
+		return true
+	})
+}
+
+// decl computes (once) the fingerprint and the direct references of one package-level declaration.
+func (p *fpPkg) decl(id string) (*fpDecl, error) {
+	if d, ok := p.decls[id]; ok {
+		return d, nil
+	}
+	d := &fpDecl{key: p.key(id), hash: "missing"}
+	p.decls[id] = d
+	refs := map[string]bool{}
+	var parts []string
+	switch id[0] {
+	case 'f':
+		for _, f := range p.funcs[id[2:]] {
+			if f.decl.Body != nil {
+				p.refs(f.file, f.decl, refs)
+			}
+			txt, err := fpNormalise(p.fset, f.decl)
+			if err != nil {
+				return nil, fmt.Errorf("%s: %v", d.key, err)
+			}
+			parts = append(parts, f.file.name+": "+txt)
+		}
+	default:
+		for _, v := range p.values[id[2:]] {
+			if v.kind[0] != id[0] {
+				continue
+			}
+			txt := v.kind + " " + v.name
+			if v.typ != nil {
+				p.refs(v.file, v.typ, refs)
+				t, err := fpNormaliseNode(p.fset, v.typ, nil)
+				if err != nil {
+					return nil, fmt.Errorf("%s: %v", d.key, err)
+				}
+				txt += " " + t
+			}
+			if v.val != nil {
+				p.refs(v.file, v.val, refs)
+				// an inherited const expression / a shared tuple initialiser is normalised once per name;
+				// normalisation is idempotent (the locals of a function literal get the same names again)
+				t, err := fpNormaliseNode(p.fset, v.val, nil)
+				if err != nil {
+					return nil, fmt.Errorf("%s: %v", d.key, err)
+				}
+				txt += " = " + t
+				if v.tuple {
+					txt += fmt.Sprintf(" #%d", v.index)
+				}
+				if v.usesIota {
+					txt += fmt.Sprintf(" iota=%d", v.iota)
+				}
+			}
+			parts = append(parts, v.file.name+": "+txt)
+		}
+	}
+	delete(refs, id)
+	for r := range refs {
+		d.refs = append(d.refs, r)
+	}
+	sort.Strings(d.refs)
+	switch len(parts) {
+	case 0:
+	case 1:
+		// a single declaration: the file name is not part of the fingerprint (moving a declaration to
+		// another file of the package is not a change)
+		d.hash = fpHash(parts[0][strings.Index(parts[0], ": ")+2:])
+	default:
+		d.hash = fpHash(strings.Join(parts, "\n"))
+	}
+	return d, nil
+}
+
+// fpMaxDepth bounds the callee closure (0 = unbounded).
+const fpMaxDepth = 0
+
+// fingerprintEntries: the listed functions, and for every listed function with closure enabled all
+// same-package functions it reaches through the static call graph plus every package-level constant
+// and variable referenced on the way (and what their initialisers reference).
+// edges: key → keys of its direct references (only for emitted keys).
+func fingerprintEntries(repo string) ([]fpEntry, map[string][]string, error) {
 	pkgs := map[string]*fpPkg{}
 	done := map[string]bool{}
-	var entries []fpEntry
+	emitted := map[string]*fpDecl{}
+	edges := map[string][]string{}
 	for _, sp := range fingerprintList {
 		key := sp.key()
 		if done[key] {
-			return nil, fmt.Errorf("fingerprints_list.go: duplicate entry %s", key)
+			return nil, nil, fmt.Errorf("fingerprints_list.go: duplicate entry %s", key)
 		}
 		done[key] = true
 		dir := sp.pkg
@@ -333,34 +723,62 @@ func fingerprintEntries(repo string) ([]fpEntry, error) {
 			var err error
 			p, err = fpLoadPkg(repo, dir)
 			if err != nil {
-				// the package directory vanished: all its functions are missing
-				p = &fpPkg{fset: token.NewFileSet()}
+				// the package directory vanished (or does not parse): all its functions are missing
+				p = &fpPkg{prefix: dir, fset: token.NewFileSet(), funcs: map[string][]fpFunc{}, methods: map[string][]string{},
+					values: map[string][]*fpValue{}, decls: map[string]*fpDecl{}}
+				if dir == "." {
+					p.prefix = "webp"
+				}
 			}
 			pkgs[dir] = p
 		}
-		var parts []string
-		for _, f := range p.files {
-			for _, d := range f.file.Decls {
-				fd, ok := d.(*ast.FuncDecl)
-				if !ok || fd.Name.Name != sp.fn || fpRecvName(fd) != sp.recv {
-					continue
+		root := "f:" + sp.fn
+		if sp.recv != "" {
+			root = "f:" + sp.recv + "." + sp.fn
+		}
+		type item struct {
+			id    string
+			depth int
+		}
+		queue := []item{{root, 0}}
+		seen := map[string]bool{root: true}
+		for len(queue) > 0 {
+			it := queue[0]
+			queue = queue[1:]
+			d, err := p.decl(it.id)
+			if err != nil {
+				return nil, nil, err
+			}
+			emitted[d.key] = d
+			if sp.noClosure {
+				break
+			}
+			if fpMaxDepth > 0 && it.depth >= fpMaxDepth {
+				continue
+			}
+			for _, r := range d.refs {
+				if !seen[r] {
+					seen[r] = true
+					queue = append(queue, item{r, it.depth + 1})
 				}
-				txt, err := fpNormalise(p.fset, fd)
-				if err != nil {
-					return nil, fmt.Errorf("%s: %v", key, err)
-				}
-				parts = append(parts, f.name+": "+txt)
 			}
 		}
-		switch len(parts) {
-		case 0:
-			entries = append(entries, fpEntry{key, "missing"})
-		case 1:
-			// a single declaration: the file name is not part of the fingerprint (moving a function
-			// to another file of the package is not a change)
-			entries = append(entries, fpEntry{key, fpHash(parts[0][strings.Index(parts[0], ": ")+2:])})
-		default:
-			entries = append(entries, fpEntry{key, fpHash(strings.Join(parts, "\n"))})
+	}
+	var entries []fpEntry
+	for k, d := range emitted {
+		entries = append(entries, fpEntry{k, d.hash})
+	}
+	for _, p := range pkgs {
+		for _, d := range p.decls {
+			if emitted[d.key] == nil {
+				continue
+			}
+			for _, r := range d.refs {
+				if rk := p.key(r); emitted[rk] != nil {
+					edges[d.key] = append(edges[d.key], rk)
+				}
+			}
+			sort.Strings(edges[d.key])
 		}
 	}
 	for _, dir := range asmDirs {
@@ -370,7 +788,7 @@ func fingerprintEntries(repo string) ([]fpEntry, error) {
 		for _, m := range matches {
 			src, err := os.ReadFile(m)
 			if err != nil {
-				return nil, err
+				return nil, nil, err
 			}
 			names = append(names, filepath.Base(m))
 			entries = append(entries, fpEntry{"asm:" + dir + "/" + filepath.Base(m), fpHash(fpAsm(src))})
@@ -378,11 +796,11 @@ func fingerprintEntries(repo string) ([]fpEntry, error) {
 		entries = append(entries, fpEntry{"asmfiles:" + dir, fpHash(strings.Join(names, "\n"))})
 	}
 	sort.Slice(entries, func(i, j int) bool { return entries[i].key < entries[j].key })
-	return entries, nil
+	return entries, edges, nil
 }
 
 func genFingerprints(repo string) ([]byte, error) {
-	entries, err := fingerprintEntries(repo)
+	entries, edges, err := fingerprintEntries(repo)
 	if err != nil {
 		return nil, err
 	}
@@ -392,8 +810,11 @@ func genFingerprints(repo string) ([]byte, error) {
 	}
 	var b bytes.Buffer
 	b.WriteString("/- GENERATED by /verif/harness/cmd/extract (fingerprints.go) from the Go sources — do not edit.\n")
-	b.WriteString("   (key, first 16 hex digits of SHA-256 of the normalised function text | \"missing\");\n")
-	b.WriteString("   normal form: comments and layout removed, locals renamed v1, v2, … by declaration order. -/\n")
+	b.WriteString("   (key, first 16 hex digits of SHA-256 of the normalised declaration text | \"missing\");\n")
+	b.WriteString("   normal form: comments and layout removed, locals renamed v1, v2, … by declaration order.\n")
+	b.WriteString("   Keys: pkg.Name / pkg.Recv.Name (functions: the listed ones and every same-package function they\n")
+	b.WriteString("   reach through the static call graph), pkg.const:Name / pkg.var:Name (package-level constants and\n")
+	b.WriteString("   variables referenced on the way, with their initialisers), asm:<file>, asmfiles:<dir>. -/\n")
 	b.WriteString("namespace Generated.Fingerprints\n\n")
 	b.WriteString("def table : List (String × String) := [\n")
 	for i, e := range entries {
@@ -406,6 +827,25 @@ func genFingerprints(repo string) ([]byte, error) {
 	b.WriteString("]\n\n")
 	b.WriteString("/-- the fingerprint recorded for key `k` on this run -/\n")
 	b.WriteString("def lookup (k : String) : Option String := (table.find? (fun e => e.1 == k)).map (·.2)\n\n")
+	b.WriteString("/-- direct same-package references of every key that has any (blank-separated): the functions it\n")
+	b.WriteString("    calls or mentions, the package-level constants and variables it uses.  tools/update_fingerprints.py\n")
+	b.WriteString("    reads this table to write the `…_deps` lists of Webp/Impl/Transcribed.lean. -/\n")
+	b.WriteString("def deps : List (String × String) := [\n")
+	var dk []string
+	for k := range edges {
+		if len(edges[k]) > 0 {
+			dk = append(dk, k)
+		}
+	}
+	sort.Strings(dk)
+	for i, k := range dk {
+		sep := ","
+		if i == len(dk)-1 {
+			sep = ""
+		}
+		fmt.Fprintf(&b, "  (%q, %q)%s\n", k, strings.Join(edges[k], " "), sep)
+	}
+	b.WriteString("]\n\n")
 	// String equality is expensive in the Lean kernel (a literal is re-encoded for every comparison),
 	// so the obligations do not go through `lookup`: every entry is also a numeric constant whose NAME
 	// is the key, resolved by the elaborator, and whose value is the same hash (0 for "missing").
@@ -424,26 +864,43 @@ func genFingerprints(repo string) ([]byte, error) {
 	return b.Bytes(), nil
 }
 
+// fpDump prints the normalised rendering(s) and the direct references of one key (debugging aid).
 func fpDump(repo, key string) {
 	for _, sp := range fingerprintList {
-		if sp.key() != key {
-			continue
-		}
 		dir := sp.pkg
 		if dir == "" {
 			dir = "."
 		}
 		p, err := fpLoadPkg(repo, dir)
 		if err != nil {
+			continue
+		}
+		if !strings.HasPrefix(key, p.prefix+".") {
+			continue
+		}
+		rest := key[len(p.prefix)+1:]
+		id := "f:" + rest
+		if strings.HasPrefix(rest, "const:") {
+			id = "c:" + rest[6:]
+		} else if strings.HasPrefix(rest, "var:") {
+			id = "v:" + rest[4:]
+		}
+		d, err := p.decl(id)
+		if err != nil {
 			return
 		}
-		for _, f := range p.files {
-			for _, d := range f.file.Decls {
-				if fd, ok := d.(*ast.FuncDecl); ok && fd.Name.Name == sp.fn && fpRecvName(fd) == sp.recv {
-					txt, _ := fpNormalise(p.fset, fd)
-					fmt.Fprintf(os.Stderr, "%s [%s]\n%s\n", key, f.name, txt)
-				}
+		var refs []string
+		for _, r := range d.refs {
+			refs = append(refs, p.key(r))
+		}
+		fmt.Fprintf(os.Stderr, "%s %s\n  references: %s\n", key, d.hash, strings.Join(refs, " "))
+		if id[0] == 'f' {
+			for _, f := range p.funcs[id[2:]] {
+				var buf bytes.Buffer
+				_ = (&printer.Config{Mode: printer.RawFormat}).Fprint(&buf, p.fset, f.decl)
+				fmt.Fprintf(os.Stderr, "  [%s] %s\n", f.file.name, fpTokens(buf.Bytes()))
 			}
 		}
+		return
 	}
 }
